@@ -92,6 +92,14 @@ func c20Conn(t *Tape, sc *Scenario, idx int, pat int) (ConnScript, ConnBackendPl
 	cs.defaults()
 	cs.AwaitTO = 2 * time.Second
 	cs.IdleEnd = 2 * time.Second
+	if t.Chance(1, 6) {
+		// a peer that connects and never says a word (under implicit TLS: never starts the
+		// handshake); it hangs up after twenty minutes, long after everything else is over:
+		// until then only Close or ReadTimeout end this connection (a Shutdown whose context
+		// expires leaves it to the peer)
+		cs.Silent = true
+		cs.IdleEnd = 20 * time.Minute
+	}
 	cp.LogoutErr = t.Chance(1, 4)
 	return cs, cp
 }
@@ -102,6 +110,9 @@ func genC20(t *Tape, tier string) *Scenario {
 	sc.Srv.MaxRcpt, sc.Srv.MaxMsg = 0, 0
 	if sc.Srv.MaxLine != 0 && sc.Srv.MaxLine < 200 {
 		sc.Srv.MaxLine = 200
+	}
+	if t.Chance(1, 4) {
+		sc.Srv.TLS = tlsImplicit
 	}
 	sc.Srv.Debug = false // Debug is an io.Writer the caller must make goroutine-safe; not part of the property
 	if sc.Srv.LMTP && t.Bool() {
@@ -126,6 +137,16 @@ func genC20(t *Tape, tier string) *Scenario {
 			a.Timeout = []Dur{0, 2 * time.Millisecond, 50 * time.Millisecond, time.Second}[t.Intn(4)]
 		}
 		sc.Admin = append(sc.Admin, a)
+	}
+	for _, c := range sc.Conns {
+		if c.Silent {
+			// a Shutdown without a deadline rightly waits for ever for a peer that never hangs up
+			for i := range sc.Admin {
+				if sc.Admin[i].Kind == aShutdown && sc.Admin[i].Timeout == 0 {
+					sc.Admin[i].Timeout = 50 * time.Millisecond
+				}
+			}
+		}
 	}
 	if x.NAdmin >= 2 && t.Chance(1, 2) {
 		// concurrent calls: same planned instant, and the yield hook parks each caller between the check of s.done and its closing
@@ -201,6 +222,12 @@ func checkC20(sc *Scenario, h *History) []Violation {
 		v("C20.goroutine-left", "%d goroutines are still there one fake hour after everything ended:\n%s", h.Leaked, clip(h.LeakDump, 3000))
 	} else if h.BubblePanic != "" {
 		v("C20.deadlock", "%s", h.BubblePanic)
+	}
+	for _, c := range h.Conns {
+		if c.SrvBlockedUnderLock > 0 {
+			v("C20.deadlock", "connection %d: a reply write that blocks for ever (the peer does not read, no write deadline) was issued while Conn.locker was held; Server.Close needs that lock to end the connection and can never return", c.ID)
+			break
+		}
 	}
 	// no call panics
 	for i, a := range h.Admin {
@@ -336,6 +363,14 @@ func classifyC20(sc *Scenario, h *History, st *Stats) string {
 			st.Probes["shutdown_context_expired"]++
 		}
 	}
+	for i, c := range sc.Conns {
+		if c.Silent && h.Conns[i].Accepted {
+			st.Faults["silent_peer"]++
+			if sc.Srv.TLS == tlsImplicit {
+				st.Faults["silent_peer_stalls_the_implicit_TLS_handshake"]++
+			}
+		}
+	}
 	evs := h.Events
 	for i := range evs {
 		if (evs[i].Kind == "Data" || evs[i].Kind == "LMTPData") && evs[i].Done {
@@ -394,7 +429,7 @@ func init() {
 		Real:        []string{"smtp.Server Serve/handleConn/Close/Shutdown", "smtp.Conn (every handler, Close, reset)", "BDAT and LMTP delivery goroutines", "io.Pipe", "sync primitives of the library", "Go race detector (second build)"},
 		Stub:        []string{"net.Listener (SimListener with scripted Accept errors)", "net.Conn (SimConn)", "Backend (SimBackend; sync-silent after a park so that it adds no happens-before edge)", "clock (synctest)", "SMTP clients (raw drivers)", "VerifYield hook (build tag verif) between the test and the closing of Server.done"},
 		Assumptions: []string{"interleavings are controlled at blocking points and at the two yield hooks only; the race detector covers memory-level races inside straight-line stretches", "a porcupine timeout is inconclusive and never reported"},
-		Required:    []string{"callback_overlaps_running_delivery", "close_shutdown_overlap_via_yield_hook", "command_loop_parks_at_yield_points", "connection_closed_by_Server.Close", "second_close_or_shutdown", "serve_started_after_close", "shutdown_context_expired", "accept_permanent", "accept_temporary", "reply_write_failed"},
+		Required:    []string{"callback_overlaps_running_delivery", "close_shutdown_overlap_via_yield_hook", "command_loop_parks_at_yield_points", "connection_closed_by_Server.Close", "second_close_or_shutdown", "serve_started_after_close", "shutdown_context_expired", "accept_permanent", "accept_temporary", "reply_write_failed", "silent_peer", "silent_peer_stalls_the_implicit_TLS_handshake", "reply_write_blocked_peer_not_reading"},
 		QuickRuns:   10000, ThoroughRuns: 800000,
 	})
 }
